@@ -139,8 +139,88 @@ func c08TScenarios() []tScenario {
 			return "", "", resultsStr(res)
 		}
 	}}
+	// With an AliveDelegate configured every alive claim passes through user code in the middle of
+	// the handler: nothing the handler looked up before the callback may be stale afterwards.
+	withAD := func(c *ml.Config) { c.Alive = &aliveRec{} }
+	leaveUpdateAD := tScenario{Name: "leave||update||gossip +alive-delegate", Horizon: 15 * time.Second, Build: func(b *bubble) ([]tThread, func(map[string]string) (string, string, string)) {
+		n := tNode(b, withAD)
+		ths := []tThread{
+			{"leave", func() string { return errStr(n.M.Leave(2 * time.Second)) }},
+			{"update", func() string { n.D.SetMeta([]byte("new")); return errStr(n.M.UpdateNode(time.Second)) }},
+			gossipThread(n, 12),
+		}
+		return ths, func(res map[string]string) (string, string, string) {
+			me := findRec(n.M.VSnapshot(), "o")
+			out := fmt.Sprintf("leave=%s update=%s self=%s announced=%v", res["leave"], res["update"], stateName(me.State), sentDeparture(n))
+			if res["leave"] == "nil" {
+				if !sentDeparture(n) {
+					return "leave-returned-nil-but-nothing-announced", out, out
+				}
+				if me.State != ml.StateLeft || listed(n, "o") {
+					return "leave-returned-nil-but-node-still-" + stateName(me.State), out, out
+				}
+			}
+			return "", "", out
+		}
+	}}
+	hijack := func(name string, first func(n *node), second func(n *node)) tScenario {
+		return tScenario{Name: name, Horizon: 5 * time.Second, Build: func(b *bubble) ([]tThread, func(map[string]string) (string, string, string)) {
+			n := tNode(b, withAD)
+			ths := []tThread{
+				{"claimA", func() string { first(n); return "ok" }},
+				{"claimB", func() string { second(n); return "ok" }},
+			}
+			return ths, func(res map[string]string) (string, string, string) {
+				s := n.M.VSnapshot()
+				cnt := 0
+				for _, nm := range s.Order {
+					if nm == "x" {
+						cnt++
+					}
+				}
+				x := findRec(s, "x")
+				joins := 0
+				for _, e := range n.Ev.Since(0) {
+					if e.Kind == "join" && e.Name == "x" {
+						joins++
+					}
+				}
+				mcount := 0
+				for _, nm := range memberNames(n.M) {
+					if nm == "x" {
+						mcount++
+					}
+				}
+				out := fmt.Sprintf("x=%s records=%d listed=%d joins=%d conflicts=%d", recStr(x), cnt, mcount, joins, n.Cf.Len())
+				switch {
+				case x == nil || cnt != 1 || mcount != 1:
+					return "name-held-by-two-records", out, out
+				case joins != 1:
+					return "name-joined-" + fmt.Sprint(joins) + "-times", out, out
+				case n.Cf.Len() != 1:
+					// two equal-incarnation claims for one name from two addresses: whichever is applied second
+					// names an existing alive member from a different address
+					return "address-conflict-not-reported", out, out
+				}
+				return "", "", out
+			}
+		}}
+	}
+	aliveAt := func(ip byte, inc uint32) func(n *node) {
+		return func(n *node) {
+			n.M.VAliveNode(&ml.VAlive{Incarnation: inc, Node: "x", Addr: ip4(ip), Port: 7946, Vsn: defaultVsn}, nil, false)
+		}
+	}
+	ppAt := func(ip byte, inc uint32) func(n *node) {
+		return func(n *node) {
+			n.M.VMergeState([]ml.VPushNodeState{{Name: "x", Addr: ip4(ip), Port: 7946, Incarnation: inc, State: ml.StateAlive, Vsn: defaultVsn}})
+		}
+	}
 	return []tScenario{
 		twoLeaves,
+		leaveUpdateAD,
+		hijack("alive(new x@A)||alive(new x@B) +alive-delegate", aliveAt(9, 1), aliveAt(10, 1)),
+		hijack("alive(new x@A)||pushpull alive(new x@B) +alive-delegate", aliveAt(9, 1), ppAt(10, 1)),
 		mk("leave||suspect(self,own)||gossip", func(n *node, own uint32) { n.M.VSuspectNode(&ml.VSuspect{Incarnation: own, Node: "o", From: "p"}) }, false),
 		mk("leave||dead(self,own)||gossip", func(n *node, own uint32) { n.M.VDeadNode(&ml.VDead{Incarnation: own, Node: "o", From: "p"}) }, false),
 		mk("leave||suspect(self,own+3)||gossip", func(n *node, own uint32) {
